@@ -19,6 +19,7 @@ import (
 	"io"
 	"os"
 	"runtime"
+	"runtime/debug"
 	"strings"
 	"syscall"
 	"time"
@@ -472,13 +473,19 @@ func runC08(r *Run) {
 		}
 		// time: only gross super-linear growth, confirmed by a second measurement of both sizes
 		if t1 >= 250*time.Millisecond && t4 > 12*t1 {
+			// confirm without the collector: its work grows with everything the process still holds from
+			// earlier cases (ANTLR's caches), not with this document (GOMEMLIMIT still bounds the heap)
+			runtime.GC()
+			oldGC := debug.SetGCPercent(-1)
 			_, u1, p1 := c08Measure(func() error { return mode.run(d1, cfg) })
+			runtime.GC()
 			_, u4, p4 := c08Measure(func() error { return mode.run(d4, cfg) })
+			debug.SetGCPercent(oldGC)
 			if p1 == "HANG" || p4 == "HANG" {
 				aborted = true // the decode is still running: nothing measured after this would be meaningful
 			}
 			if u1 >= 250*time.Millisecond && u4 > 12*u1 {
-				r.out.Finding("C08", "cost:"+f.name, fmt.Sprintf("decoding CPU time grows much faster than linearly (4 times the document: %v -> %v, again %v -> %v): %s",
+				r.out.Finding("C08", "cost:"+f.name, fmt.Sprintf("decoding CPU time grows much faster than linearly (4 times the document: %v -> %v, again with the collector off %v -> %v): %s",
 					t1.Round(time.Millisecond), t4.Round(time.Millisecond), u1.Round(time.Millisecond), u4.Round(time.Millisecond), desc), replay)
 			}
 		}
